@@ -71,6 +71,23 @@ func enumInputs(x *ctx, withCycles bool, emit func(fam, name, src string, flags 
 		nPrefixProgs = len(small)
 	}
 	bounds["prefix_programs"] = nPrefixProgs
+	for _, p := range gen.OddLiteralPrograms() {
+		emit("odd-literal", p.Name, p.Src, nil)
+		emit("odd-literal", p.Name, p.Src, []string{"-i"})
+		ts := gen.Tokenize(p.Src)
+		for _, i := range gen.NonSpaceIdx(ts) {
+			emit("odd-literal-prefix", p.Name, gen.Join(ts[:i+1]), []string{"-i"})
+		}
+	}
+	// generated programs (the set the metamorphic checks use): whole, and every token prefix
+	for _, p := range gen.Generated() {
+		emit("generated", p.Name, p.Src, nil)
+		emit("generated", p.Name, p.Src, []string{"-i"})
+		ts := gen.Tokenize(p.Src)
+		for _, i := range gen.NonSpaceIdx(ts) {
+			emit("generated-prefix", p.Name, gen.Join(ts[:i+1]), []string{"-i"})
+		}
+	}
 	for _, p := range corpus {
 		emit("corpus", p.Name, p.Src, nil)
 		emit("corpus", p.Name, p.Src, []string{"-i"})
